@@ -1,4 +1,4 @@
-//@ props: C15 C16 C01 C02
+//@ props: C15 C16 C01 C02 C19
 //@ expect: pass
 //@ what: generic shapes: parameter used directly / only nested in Vec<Option<_>> / only in a query response / only via resp= / unused / bound relating two parameters / lifetime parameter; interface with associated types used per kind; each module ends with a use-site naming, building and dispatching the message types with only the predicted parameters
 #![allow(dead_code, unused_variables, clippy::new_without_default, clippy::type_complexity)]
@@ -235,5 +235,169 @@ pub mod resp_differs {
         fn contract_plain(&self, _ctx: QueryCtx) -> StdResult<InternalResp> {
             Ok(InternalResp {})
         }
+    }
+}
+
+/// type parameters whose names equal the last segment of qualified concrete types used in messages that do NOT use the parameter:
+/// how a parameter is spelled must not change which messages are generic over it
+pub mod param_named_like_type {
+    use super::*;
+
+    pub mod settings {
+        #[sylvia::cw_schema::cw_serde]
+        pub struct Param {
+            pub n: u32,
+        }
+        #[sylvia::cw_schema::cw_serde]
+        pub struct Msg {}
+    }
+
+    pub struct Contract<Param, Msg> {
+        _p: std::marker::PhantomData<(Param, Msg)>,
+    }
+
+    #[contract]
+    impl<Param, Msg> Contract<Param, Msg>
+    where
+        Param: CustomMsg + 'static,
+        Msg: CustomMsg + 'static,
+    {
+        pub fn new() -> Self {
+            Self { _p: std::marker::PhantomData }
+        }
+        #[sv::msg(instantiate)]
+        fn instantiate(&self, _ctx: InstantiateCtx, p: settings::Param) -> StdResult<Response> {
+            Ok(Response::new())
+        }
+        #[sv::msg(migrate)]
+        fn migrate(&self, _ctx: MigrateCtx, p: Vec<self::settings::Msg>) -> StdResult<Response> {
+            Ok(Response::new())
+        }
+        #[sv::msg(exec)]
+        fn concrete(&self, _ctx: ExecCtx, p: settings::Param, m: Option<settings::Msg>) -> StdResult<Response> {
+            Ok(Response::new())
+        }
+        #[sv::msg(query)]
+        fn generic_resp(&self, _ctx: QueryCtx) -> StdResult<Param> {
+            unimplemented!()
+        }
+        #[sv::msg(sudo)]
+        fn generic_arg(&self, _ctx: SudoCtx, m: Vec<Msg>, p: settings::Param) -> StdResult<Response> {
+            Ok(Response::new())
+        }
+    }
+
+    pub mod iface {
+        use super::*;
+        #[interface]
+        #[sv::custom(msg = sylvia::cw_std::Empty, query = sylvia::cw_std::Empty)]
+        pub trait Named {
+            type Error: From<StdError>;
+            type Param: CustomMsg;
+
+            #[sv::msg(exec)]
+            fn e(&self, ctx: ExecCtx, a: settings::Param) -> Result<Response, Self::Error>;
+            #[sv::msg(query)]
+            fn q(&self, ctx: QueryCtx) -> Result<Self::Param, Self::Error>;
+        }
+
+        pub fn use_site() {
+            use sylvia::cw_std::Empty;
+            let e: sv::ExecMsg = sv::ExecMsg::e(settings::Param { n: 1 });
+            let q: sv::QueryMsg<Empty> = sv::QueryMsg::q();
+            let _ = (e, q);
+        }
+    }
+
+    pub fn use_site() {
+        use sylvia::cw_std::Empty;
+        let i: sv::InstantiateMsg = sv::InstantiateMsg::new(settings::Param { n: 1 });
+        let m: sv::MigrateMsg = sv::MigrateMsg::new(vec![]);
+        let e: sv::ExecMsg = sv::ExecMsg::concrete(settings::Param { n: 1 }, None);
+        let q: sv::QueryMsg<Empty> = sv::QueryMsg::generic_resp();
+        let s: sv::SudoMsg<Empty> = sv::SudoMsg::generic_arg(vec![], settings::Param { n: 2 });
+        let _ = (i, m, e, q, s);
+    }
+}
+
+/// a parameter used again after another one in the same message kind (A, B, A), and parameters first mentioned in an order that is
+/// not their declaration order: each message is generic over each used parameter ONCE, in declaration order
+pub mod reuse_and_order {
+    use super::*;
+
+    pub struct Contract<A, B, C0> {
+        _p: std::marker::PhantomData<(A, B, C0)>,
+    }
+
+    #[contract]
+    impl<A, B, C0> Contract<A, B, C0>
+    where
+        A: CustomMsg + 'static,
+        B: CustomMsg + 'static,
+        C0: CustomMsg + 'static,
+    {
+        pub fn new() -> Self {
+            Self { _p: std::marker::PhantomData }
+        }
+        #[sv::msg(instantiate)]
+        fn instantiate(&self, _ctx: InstantiateCtx, b: B, a: A, b2: B) -> StdResult<Response> {
+            Ok(Response::new())
+        }
+        #[sv::msg(exec)]
+        fn transfer(&self, _ctx: ExecCtx, from: A, amount: B, to: A) -> StdResult<Response> {
+            Ok(Response::new())
+        }
+        #[sv::msg(exec)]
+        fn again(&self, _ctx: ExecCtx, who: A) -> StdResult<Response> {
+            Ok(Response::new())
+        }
+        #[sv::msg(query)]
+        fn takes_c_returns_a(&self, _ctx: QueryCtx, c: C0) -> StdResult<A> {
+            unimplemented!()
+        }
+        #[sv::msg(query)]
+        fn takes_c_again(&self, _ctx: QueryCtx, c: Vec<C0>) -> StdResult<Plain> {
+            unimplemented!()
+        }
+        #[sv::msg(sudo)]
+        fn store_c(&self, _ctx: SudoCtx, c: C0) -> StdResult<Response> {
+            Ok(Response::new())
+        }
+        #[sv::msg(sudo)]
+        fn store_b(&self, _ctx: SudoCtx, b: B) -> StdResult<Response> {
+            Ok(Response::new())
+        }
+    }
+
+    pub mod escrow {
+        use super::*;
+        #[interface]
+        #[sv::custom(msg = sylvia::cw_std::Empty, query = sylvia::cw_std::Empty)]
+        pub trait Escrow {
+            type Error: From<StdError>;
+            type PartyT: CustomMsg;
+            type AssetT: CustomMsg;
+
+            #[sv::msg(exec)]
+            fn lock(&self, ctx: ExecCtx, payer: Self::PartyT, asset: Self::AssetT, payee: Self::PartyT) -> Result<Response, Self::Error>;
+            #[sv::msg(sudo)]
+            fn seize(&self, ctx: SudoCtx, asset: Self::AssetT, from: Self::PartyT) -> Result<Response, Self::Error>;
+        }
+
+        pub fn use_site() {
+            use sylvia::cw_std::Empty;
+            let e: sv::ExecMsg<Empty, Empty> = sv::ExecMsg::lock(Empty {}, Empty {}, Empty {});
+            let s: sv::SudoMsg<Empty, Empty> = sv::SudoMsg::seize(Empty {}, Empty {});
+            let _ = (e, s);
+        }
+    }
+
+    pub fn use_site() {
+        use sylvia::cw_std::Empty;
+        let i: sv::InstantiateMsg<Empty, Empty> = sv::InstantiateMsg::new(Empty {}, Empty {}, Empty {});
+        let e: sv::ExecMsg<Empty, Empty> = sv::ExecMsg::transfer(Empty {}, Empty {}, Empty {});
+        let q: sv::QueryMsg<Empty, Empty> = sv::QueryMsg::takes_c_returns_a(Empty {});
+        let s: sv::SudoMsg<Empty, Empty> = sv::SudoMsg::store_b(Empty {});
+        let _ = (i, e, q, s);
     }
 }
